@@ -44,8 +44,9 @@ structure DState where
   hadFailure : Bool := false
   firstPatch : Bool := true
   backedUp : List Bytes := []
+  rejWritten : List Bytes := []            -- reject files written so far in this run (`RejectFiles`)
   dWrites : List DeferredWrite := []
-  dRemovals : List Bytes := []
+  dRemovals : List (Bytes × Bool) := []    -- (path, a backup of it is due)
   -- ghost state (not in the code): the (file to patch, output file) pair of every section that got that far
   sections : List (Bytes × Bytes) := []
   -- fault schedule (C10): the `faultAt`-th file system operation of the run fails once with an I/O error
@@ -84,6 +85,10 @@ def fsExists (p : Bytes) : DM Bool := do let s ← get; pure (s.fs.stat (absPath
 def fsIsRegular (p : Bytes) : DM Bool := do
   let s ← get
   pure (match s.fs.stat (absPath s p) with | some (.file _ _) => true | _ => false)
+/-- `filesystem::is_symlink(path)` (lstat) -/
+def fsIsSymlink (p : Bytes) : DM Bool := do
+  let s ← get
+  pure (match s.fs.lookup (absPath s p) with | some (.symlink _) => true | _ => false)
 /-- `filesystem::get_permissions` -/
 def fsGetPerms (p : Bytes) : DM (Option Nat) := do
   let s ← get
@@ -122,7 +127,8 @@ def removeFileAndEmptyParents (p : Bytes) : DM Unit := do
   for d in (dirPrefixes p).reverse do
     if go then
       let s ← get
-      let ok ← tryOp (.rmdir (absPath s d)) (fun e => e == .enotempty || e == .eexist)
+      -- not empty, or not a directory that could be removed in the first place (".", a mount point, a link, gone already)
+      let ok ← tryOp (.rmdir (absPath s d)) (fun e => e == .enotempty || e == .eexist || e == .enotdir || e == .enoent)
       if !ok then go := false
 
 def writeMask : Nat := 0o222
@@ -168,14 +174,29 @@ def allRejectBytes (p : Patch) (fmt : RejectFormat) : Nat → List Hunk → Exce
     | .error e => .error e
     | .ok b => (allRejectBytes p fmt (n + 1) hs).map (b ++ ·)
 
+/-- open the reject file (`RejectFiles::open_mode_for`: the first rejects written to a file in this run replace what is in it,
+    later ones are added: fopen(path, "a") does not truncate, and creates the file if it is gone) -/
+def openRejects (rej : Bytes) : DM Unit := do
+  let s ← get
+  if s.rejWritten.contains rej then
+    if !(← fsExists rej) then opCreat rej
+  else
+    set { s with rejWritten := s.rejWritten ++ [rej] }
+    opCreat rej
+
+def writeRejects (rej : Bytes) (bytes : Bytes) : DM Unit := do
+  openRejects rej
+  opWrite rej bytes
+
 /-- `refuse_to_patch` -/
 def refuseToPatch (o : Options) (outputFile : Bytes) (p : Patch) : DM Unit := do
   emit .refusing
-  if !o.dryRun then
+  -- a patch without any hunk (a change of mode only) has nothing to save
+  if !o.dryRun && !p.hunks.isEmpty then
     let rej := rejectPath o outputFile
     emit (.failed p.hunks.length p.hunks.length true (some rej))
     ensureParentDirs rej
-    opCreat rej
+    openRejects rej
     match allRejectBytes p o.rejectFormat 0 p.hunks with
     | .error e => throw e
     | .ok b => opWrite rej b
@@ -183,6 +204,8 @@ def refuseToPatch (o : Options) (outputFile : Bytes) (p : Patch) : DM Unit := do
 
 /-- `guess_filepath` -/
 def guessFilepath (p : Patch) (reverse : Bool) : DM Bytes := do
+  -- reversing a rename or a copy starts from the file which it made
+  if reverse && (p.operation == .rename || p.operation == .copy) && (← fsExists p.newPath) then return p.newPath
   if p.oldPath != devNull && (← fsExists p.oldPath) then return p.oldPath
   if p.newPath != devNull && (← fsExists p.newPath) then return p.newPath
   if p.indexPath != devNull && (← fsExists p.indexPath) then return p.indexPath
@@ -229,6 +252,7 @@ def makeBackupFor (o : Options) (p : Bytes) : DM Unit := do
   let s ← get
   if !s.backedUp.contains bn then
     set { s with backedUp := s.backedUp ++ [bn] }
+    ensureParentDirs bn      -- a prefix may put the backup in a directory of its own
     if (← fsExists p) then opRename p bn else opCreat bn
 
 def isSymlinkMode (m : Nat) : Bool := (m &&& 0o120000) == 0o120000
@@ -258,8 +282,11 @@ def finalizeDeferred (o : Options) : DM Unit := do
     if w.backup then makeBackupFor o w.dest
     writeFile w.dest w.content
     permissionCallback w.newMode w.perm w.dest
-  for p in s.dRemovals do
-    if !(s.dWrites.any (·.dest == p)) then removeFileAndEmptyParents p
+  for (p, backup) in s.dRemovals do
+    if !(s.dWrites.any (·.dest == p)) then
+      -- moving the file to its backup takes it out of the way just as well, unless an earlier section already made that backup
+      if backup then makeBackupFor o p
+      if !backup || (← fsExists p) then removeFileAndEmptyParents p
 
 def hasPrerequisite (lines : List Line) (pre : Bytes) : Bool :=
   lines.any fun l => (List.range (l.content.length + 1)).any fun i => pre.isPrefixOf (l.content.drop i)
@@ -300,7 +327,8 @@ def processSection (o : Options) (format : Format) : DM Bool := do
     emit .binary; failNow; return true
   let guessed ← if o.fileToPatch.isEmpty then guessFilepath patch0 o.reverse else pure o.fileToPatch
   if guessed.isEmpty then emit .cantFind
-  let fileToPatch ← if guessed.isEmpty then promptForFilepath 64 else pure guessed
+  -- no questions with --force / --batch: a patch without a file to apply it to is skipped
+  let fileToPatch ← if guessed.isEmpty && !o.force && !o.batch then promptForFilepath 64 else pure guessed
   if fileToPatch.isEmpty then
     let p ← parseBodyM shouldParseBody patch0
     emit .skipping
@@ -309,7 +337,17 @@ def processSection (o : Options) (format : Format) : DM Bool := do
   let outputFile := outputPath o patch0 fileToPatch
   modify fun s => { s with sections := s.sections ++ [(fileToPatch, outputFile)] }
   createTemp    -- tmp_reject_file
-  if (← fsExists fileToPatch) && !(← fsIsRegular fileToPatch) then
+  -- what is read must be a regular file, and so must what is written if that exists (the new name of a rename or copy; not with -o);
+  -- a symbolic link is only what is patched if the patch itself is about one
+  let symPatch := isSymlinkMode patch0.oldMode || isSymlinkMode patch0.newMode
+  let notRegular (p : Bytes) : DM Bool := do
+    if !symPatch && (← fsIsSymlink p) then return true
+    return (← fsExists p) && !(← fsIsRegular p)
+  let refused ← (do
+    if (← notRegular fileToPatch) then return true
+    if o.outFile.isEmpty && outputFile != fileToPatch && (← notRegular outputFile) then return true
+    return false : DM Bool)
+  if refused then
     let p ← parseBodyM shouldParseBody patch0
     emit .notRegular
     refuseToPatch o outputFile p
@@ -355,7 +393,7 @@ def processSection (o : Options) (format : Format) : DM Bool := do
       let rej := rejectPath o outputFile
       emit (.failed r.failed patch.hunks.length r.skipped (some rej))
       ensureParentDirs rej
-      writeFile rej r.rejBytes
+      writeRejects rej r.rejBytes
     else emit (.failed r.failed patch.hunks.length r.skipped none)
   if o.outFile == [45] then
     modify fun s => { s with stdout := s.stdout ++ outBytes }
@@ -374,8 +412,8 @@ def processSection (o : Options) (format : Format) : DM Bool := do
       if patch.operation == .add || patch.operation == .rename || patch.operation == .copy then ensureParentDirs outputFile
       writePatchedResult o patch outputFile perm shouldBackup outBytes
     if r.failed == 0 then
-      if writeToFile && patch.operation == .rename then
-        if patch.format == .git then modify fun s => { s with dRemovals := s.dRemovals ++ [fileToPatch] }
+      if writeToFile && patch.operation == .rename && o.outFile.isEmpty then
+        if patch.format == .git then modify fun s => { s with dRemovals := s.dRemovals ++ [(fileToPatch, shouldBackup)] }
         else removeFileAndEmptyParents fileToPatch
   pure true
 
@@ -398,7 +436,7 @@ def processPatchM (o : Options) : DM Unit := do
   let bytes ← if o.patchFile.isEmpty || o.patchFile == [45] then do
       createTemp; pure s.stdin
     else match s.fs.stat (absPath s o.patchFile) with
-      | some (.file b m) => if s.fs.isRoot || (m / 256 % 2 == 1 && m / 128 % 2 == 1) then pure b else throw Exn.systemError
+      | some (.file b m) => if s.fs.isRoot || m / 256 % 2 == 1 then pure b else throw Exn.systemError   -- opened for reading only
       | _ => throw Exn.systemError
   let format ← liftE (diffFormatFromOptions o)
   let lines := splitLines bytes
